@@ -111,6 +111,9 @@ def gen_function(world, contracts, externals, key):
         for (lab, ast, txt) in c['returns']:
             if getattr(V, 'return_clause_sites', {}).get(lab, 0) == 0:
                 raise OutOfSubset('return clause [%s] of %s applies to no return statement (a variable it names no longer exists)' % (lab, key))
+    for key_ in getattr(V, 'step_clause_skipped', ()):
+        if getattr(V, 'step_clause_sites', {}).get(key_, 0) == 0:
+            raise OutOfSubset('step clause [%s] of loop %s in %s applies to no back edge (a variable it names no longer exists)' % (key_[1], key_[0], key))
     V.global_hyps += world.string_axioms()
     return V
 
